@@ -205,6 +205,13 @@ func C06(tier string) {
 			addc("localtypea", "concat")
 			addc("idcall", "localtypeb")
 		}
+		for k := 0; k < 2; k++ {
+			addc("forkjoindeepa")
+			addc("forkjoindeepb")
+			addc("forkjoindeepa", "idcall")
+			addc("idcall", "forkjoindeepb")
+			addc("forkjoindeepb", "forkjoindeepa")
+		}
 		addc("ifdiamond", "idcall", "structfield", "closureret", "concat", "idcall")
 		addc("idcall", "ifdiamond", "idcall", "ifdiamond", "idcall", "copy")
 		addc("closureret", "closureparam", "idcall", "retstruct", "ifdiamond")
@@ -215,7 +222,7 @@ func C06(tier string) {
 		if err := gen.WriteProgram(dir, files); err != nil {
 			run.Inconclusive(err.Error())
 		} else {
-			for _, depth := range []int{0, 6, 10, 14} {
+			for _, depth := range []int{0, 8, 10, 12, 14, 16} {
 				for _, od := range []bool{false, true} {
 					c := ChainCfg{Name: "fs", FieldSens: true, Rewrites: true, OnDemand: od}
 					y := strings.ReplaceAll(c.YAML(), `"^Sink[SR2]?$"`, `"^(Sink[SR2]?|Nop2)$"`)
